@@ -29,6 +29,15 @@ type Config struct {
 	Cold   uint32  `json:"cold_factor"` // 0 => default (3)
 	// IntervalMs: StatIntervalInMs of the rule (0 = default 1000): the threshold is a count per interval
 	IntervalMs uint32 `json:"interval_ms,omitempty"`
+	// Batch: tokens per request (0 = 1): every admitted request counts with its batch
+	Batch uint32 `json:"batch,omitempty"`
+}
+
+func (c Config) batch() int64 {
+	if c.Batch == 0 {
+		return 1
+	}
+	return int64(c.Batch)
 }
 
 func (c Config) interval() int64 {
@@ -36,6 +45,15 @@ func (c Config) interval() int64 {
 		return 1000
 	}
 	return int64(c.IntervalMs)
+}
+
+// bucketLen: the statistic is a view of the resource's 500 ms buckets where the interval allows it, otherwise a
+// statistic of the rule's own with one bucket as long as the interval
+func (c Config) bucketLen() int64 {
+	if iv := c.interval(); iv%500 != 0 || iv > 10000 {
+		return iv
+	}
+	return 500
 }
 
 func (c Config) String() string { b, _ := json.Marshal(c); return string(b) }
@@ -101,12 +119,13 @@ func (s *scen) tick(ms int64) {
 
 // windowSum: admitted tokens in the aligned statistic window (500 ms buckets; 1 s by default) ending at now
 func (s *scen) windowSum() int64 {
-	cur := s.now - s.now%500
+	bl := s.cfg.bucketLen()
+	cur := s.now - s.now%bl
 	var n int64
 	for _, a := range s.adm {
-		st := a.t - a.t%500
-		if st >= cur-s.cfg.interval()+500 && st <= cur {
-			n++
+		st := a.t - a.t%bl
+		if st >= cur-s.cfg.interval()+bl && st <= cur {
+			n += s.cfg.batch()
 		}
 	}
 	return n
@@ -129,14 +148,18 @@ func (s *scen) request() (bool, string) {
 		return false, fmt.Sprintf("t=+%dms: effective threshold %v exceeds the configured threshold %v", s.now-T0, a, s.cfg.T)
 	}
 	before := s.windowSum()
-	e, blk := sentinel.Entry("a")
+	var opts []sentinel.EntryOption
+	if s.cfg.Batch > 1 {
+		opts = append(opts, sentinel.WithBatchCount(s.cfg.Batch))
+	}
+	e, blk := sentinel.Entry("a", opts...)
 	s.idleSince = s.now
 	s.fresh = false
 	if blk != nil {
 		return false, ""
 	}
 	e.Exit()
-	if float64(before+1) > s.cfg.T {
+	if float64(before+s.cfg.batch()) > s.cfg.T {
 		return true, fmt.Sprintf("t=+%dms: request admitted although %d tokens were already admitted in the current window (threshold %v)", s.now-T0, before, s.cfg.T)
 	}
 	s.adm = append(s.adm, admit{s.now})
@@ -180,7 +203,7 @@ func (s *scen) Apply(i int) (string, string) {
 		}
 		if cold && s.cfg.T > 0 {
 			lim := int(math.Ceil(s.cfg.T/s.cfg.cold())) + 1
-			if n > lim {
+			if n*int(s.cfg.batch()) > lim {
 				return fmt.Sprint(n), fmt.Sprintf("t=+%dms: %d requests admitted at once from a cold start, more than about threshold/coldFactor = %v/%v (allowed <= %d)%s", s.now-T0, n, s.cfg.T, s.cfg.cold(), lim, onLine)
 			}
 		}
@@ -215,7 +238,7 @@ func (s *scen) Apply(i int) (string, string) {
 			}
 			s.tick(100)
 		}
-		if s.cfg.T >= 1 && last < int(math.Floor(s.cfg.T)) {
+		if b := int(s.cfg.batch()); s.cfg.T >= 1 && last*b+(b-1) < int(math.Floor(s.cfg.T)) {
 			return fmt.Sprint(last), fmt.Sprintf("after %d s of saturating demand only %d requests were admitted in the last statistic interval (%d ms), threshold %v (warm-up period %d s)", dur/1000, last, s.cfg.interval(), s.cfg.T, s.cfg.Period)
 		}
 		return fmt.Sprintf("sat=%d", last), ""
@@ -251,10 +274,11 @@ func minInt(a, b int) int {
 func (s *scen) Key() string {
 	cs := flow.VerifControllers("a")
 	w, _ := flow.VerifWarmUpOf(cs[0].TC)
-	cur := s.now - s.now%500
+	bl := s.cfg.bucketLen()
+	cur := s.now - s.now%bl
 	var r []string
 	for _, a := range s.adm {
-		st := a.t - a.t%500
+		st := a.t - a.t%bl
 		if st >= cur-1000 {
 			r = append(r, fmt.Sprint(st-cur))
 		}
@@ -281,6 +305,15 @@ func configs() []Config {
 			out = append(out, Config{T: 10, Period: p, Cold: 3, IntervalMs: iv})
 		}
 	}
+	// requests of two tokens each, on the resource's own statistic and on a statistic of the rule's own
+	for _, iv := range []uint32{0, 500, 1200} {
+		out = append(out, Config{T: 10, Period: 2, Cold: 3, IntervalMs: iv, Batch: 2})
+	}
+	out = append(out, Config{T: 10, Period: 2, Cold: 3, IntervalMs: 1200})
+	// a statistic of the rule's own (interval not a multiple of the bucket length) under requests of four tokens
+	for _, iv := range []uint32{700, 1200} {
+		out = append(out, Config{T: 100, Period: 2, Cold: 3, IntervalMs: iv, Batch: 4})
+	}
 	return out
 }
 
@@ -303,6 +336,9 @@ func signature(cfg Config, what string) string {
 		}
 		if cfg.IntervalMs > 1000 {
 			return "C11:warmup:never-warm:interval-above-1s"
+		}
+		if cfg.Batch > 1 {
+			return "C11:warmup:never-warm:batched-requests-below-the-cold-mark"
 		}
 		return "C11:warmup:never-warm"
 	case strings.Contains(what, "starved"):
